@@ -970,6 +970,17 @@ class ConnectedShape(DefinedShape):
             return False
         if abs(float(self) - float(other)) > 1e-6:
             return False
+        self_subshapes = list(self.subshapes)
+        othe_subshapes = list(other.subshapes)
+        if len(self_subshapes) != len(othe_subshapes):
+            return False
+        for subshape in self_subshapes:
+            for j, osbshape in enumerate(othe_subshapes):
+                if subshape == osbshape:
+                    othe_subshapes.pop(j)
+                    break
+            else:
+                return False
         return True
 
     def __invert__(self) -> DisjointShape:
